@@ -60,6 +60,14 @@ def _run_variant(args):
     except AnalysisError as exc:
         return (v.name, "error", [str(exc)])
     new = [f for f in r.findings if f.fkey not in base_keys]
+    # the same safety net as report.finish: shape findings in restructured functions are withheld
+    from .familiar import subject_to_net, unfamiliar
+    kept = []
+    for f in new:
+        if not subject_to_net(f.rule) or not unfamiliar(prog, f.key.split("::")[0], f.key.split("::", 1)[1] if "::" in f.key else ""):
+            kept.append(f)
+    withheld = len(new) - len(kept)
+    new = kept
     if r.errors:
         return (v.name, "error", r.errors[:3])
     if v.expect is None:
